@@ -2,9 +2,9 @@
 from ..rules import holds
 from .common import hold_classes, declare
 
-RULES = ['EMIT-AFTER-REL', 'SCRATCH-SLOT', 'HOLD-BEFORE-ESCAPE', 'REL-AFTER-AWAIT', 'EMIT-REL-TIMING', 'NO-REL-ON-FAIL', 'REL-WHILE-IN-FLIGHT', 'EMIT-BALANCE']
+RULES = ['EMIT-AFTER-REL', 'SCRATCH-SLOT', 'HOLD-BEFORE-ESCAPE', 'REL-AFTER-AWAIT', 'EMIT-REL-TIMING', 'NO-REL-ON-FAIL', 'REL-WHILE-IN-FLIGHT', 'EMIT-BALANCE', 'REL-WHILE-BUFFERED', 'DROP-TABLE']
 FLOORS = {'HOLD-BEFORE-ESCAPE': 14, 'REL-AFTER-AWAIT': 12, 'NO-REL-ON-FAIL': 15, 'EMIT-REL-TIMING': 1,
-          'REL-WHILE-IN-FLIGHT': 1}
+          'REL-WHILE-IN-FLIGHT': 1, 'DROP-TABLE': 8, 'REL-WHILE-BUFFERED': 4}
 
 META = {'level': "Static typestate analysis of the reference-count protocol on every enumerated path (loops unrolled, helpers spliced, exceptional edges) of every method of every node class. Decides structural necessary conditions of 'never early, never for a failed element': retain-before-escape, release-after-await, no release on failure edges, ownership of in-flight slots. It does not decide when the loop runs a callback nor Dask cluster behaviour; a behavioural proof over all schedules is out of reach of static analysis.", 'note': 'Trusted: CPython ast; Python evaluation order and tornado/asyncio suspension semantics as encoded in sa/paths.py; the reasoned exception tables printed in the evidence. Two genuine defects are listed in known_findings.json (Stream._emit release timing; latest in-flight release).', 'technique': 'static analysis: bounded path enumeration + ownership/typestate rules (HOLD-BEFORE-ESCAPE, REL-AFTER-AWAIT, NO-REL-ON-FAIL, REL-WHILE-IN-FLIGHT, EMIT-REL-TIMING)'}
 
@@ -23,9 +23,11 @@ def run(ctx, R):
         R.run(holds.check_class, ctx, R, c, rules=set(RULES))
         R.run(holds.check_in_flight, ctx, R, c)
     R.run(holds.check_emit, ctx, R)
+    R.run(holds.check_drop_table, ctx, R, hold_classes(ctx))
     # obligations of rules that belong to C05 were filtered by `rules=`; drop class-level extras
     for k in [k for k in R.obs if k[0] not in RULES]:
         del R.obs[k]
 
 
 META['level'] += ' EMIT-BALANCE (all downstream holds retained before the first delivery) is also part of this check.'
+META['level'] += ' DROP-TABLE: a buffered element that was never emitted is released only at the listed drop sites (input abandoned, duplicate superseded); REL-WHILE-BUFFERED: update() never releases the incoming element while it sits in one of the node\'s containers.'
